@@ -101,6 +101,25 @@ func c18Oracle(ll *sst.LevelList, c *sst.Compactor) string {
 
 // ---- direct mode ----
 
+// c18FailFS makes the Save of newly created files fail while `fail` is set (a table write that returns an error).
+type c18FailFS struct {
+	storage.FileSystem
+	fail bool
+}
+
+type c18FailFile struct{ storage.File }
+
+func (f c18FailFile) Save() error { return fmt.Errorf("injected write failure") }
+
+func (g *c18FailFS) New(path string) storage.File {
+	f := g.FileSystem.New(path)
+	if g.fail {
+		return c18FailFile{f}
+	}
+	return f
+}
+
+
 type c18Cfg struct {
 	mode                                 string
 	levels, l0, amp, target              int
@@ -241,7 +260,7 @@ func (d *c18Direct) describe(cs *sst.ChangeSet, sorted bool) string {
 }
 
 func runC18Direct(c lib.Case, cfg c18Cfg) []string {
-	fs := storage.NewMemoryFilesystem()
+	fs := &c18FailFS{FileSystem: storage.NewMemoryFilesystem()}
 	tw := sst.NewTableWriter(fs, 0)
 	d := &c18Direct{
 		ll: sst.NewEmptyLevelList(cfg.levels), tw: tw, ids: map[*sst.Table]int{},
@@ -416,6 +435,26 @@ func runC18Direct(c lib.Case, cfg c18Cfg) []string {
 				c18Bump("branch:minor-deep")
 			}
 			out = append(out, o+" "+d.describe(cs, true))
+		case "compactfail":
+			// a Compact call whose table write fails: an error and no change set; the level list stays as it is
+			if d.pending != nil {
+				out = append(out, "busy")
+				continue
+			}
+			o := c18Oracle(d.ll, d.comp)
+			before := d.ll
+			fs.fail = true
+			cs, err := d.comp.Compact(d.ll)
+			fs.fail = false
+			switch {
+			case err != nil && cs == nil && d.ll == before:
+				c18Bump("compact-write-failed")
+				out = append(out, fmt.Sprintf("%s failed cur=%d", o, d.comp.VerifMinorLevel()))
+			case err == nil && cs == nil:
+				out = append(out, fmt.Sprintf("%s none cur=%d", o, d.comp.VerifMinorLevel()))
+			default:
+				out = append(out, fmt.Sprintf("%s unexpected cs=%v err=%v", o, cs != nil, err != nil))
+			}
 		case "apply":
 			if d.pending == nil {
 				out = append(out, "none")
@@ -645,6 +684,10 @@ func c18GenDirect(r *lib.Rng, tier string) lib.Case {
 		rounds = r.Range(2, 12)
 	}
 	for i := 0; i < rounds; i++ {
+		if r.Chance(1, 6) {
+			ops = append(ops, "compactfail")
+			ops = append(ops, c18ObserveOps()...)
+		}
 		ops = append(ops, "compact")
 		if r.Chance(1, 3) {
 			for j := r.Range(1, 2); j > 0; j-- {
@@ -777,6 +820,8 @@ func c18Fixed() []lib.Case {
 	// D22: L0{k@9}  L2{A: a@1, B: k@5}  base{z@2}, four tables of about the same size, goal 250 %: 300 % before, 200 % after
 	// taking A. The unrepaired picker went on to level 0 and merged k@9 into the base beneath B.
 	d22 := []string{"cfg", "tbl 3 7a:2:0:01", "tbl 2 61:1:0:02", "tbl 2 6b:5:0:6f6c64", "tbl 0 6b:9:0:6e6577"}
+	d22 = append(d22, "compactfail")
+	d22 = append(d22, obs...)
 	d22 = append(d22, "compact", "apply")
 	d22 = append(d22, obs...)
 	d22 = append(d22, "compact", "apply")
